@@ -178,6 +178,7 @@ def run(ctx):
     hist = {}
     n_live = 0
     n_exp = 0
+    n_ladder = 0
     for i in range(n_cfg):
         vd, ed, t = draw_dates(rng, 10)
         r, q, v, dc = draw_mkt(rng)
@@ -212,6 +213,22 @@ def run(ctx):
             if isinstance(pv, float):
                 if not (pv >= -NEG_TOL * scale):
                     viol('barrier option value is negative', dict(case, value=pv), 'non-negative')
+            # a spot ladder (ndarray / list of spots on BOTH sides of the barrier) is the element-wise scalar valuation:
+            # the price at one spot does not depend on which other spots are asked for in the same call (seed C11-11: an
+            # 'already knocked out' early return that tests np.any over the ladder)
+            if i % 4 == 0:
+                ladder = [s, h * 0.97, h * 1.03, s * 1.1, h]
+                try:
+                    one = [float(opt.value(vd, float(x), dcv, qcv, model)) for x in ladder]
+                    arr = [float(x) for x in opt.value(vd, np.array(ladder), dcv, qcv, model)]
+                    lst = [float(x) for x in opt.value(vd, list(ladder), dcv, qcv, model)] if i % 8 == 0 else arr
+                except Exception as e:  # noqa: BLE001
+                    one, arr, lst = None, repr(e)[:120], None
+                n_ladder += 1
+                if one is None or any(abs(a - b) > 1e-12 * scale * notional or abs(c - b) > 1e-12 * scale * notional
+                                      for a, b, c in zip(arr, one, lst)):
+                    viol('barrier option valued on a ladder of spots differs from the same spots valued one at a time',
+                         dict(case, spots=ladder, ladder_values=arr, list_values=lst, one_at_a_time=one), 'ladder-is-elementwise')
         van = {CALL: EquityVanillaOption(ed, k, CALL).value(vd, s, dcv, qcv, model),
                PUT: EquityVanillaOption(ed, k, PUT).value(vd, s, dcv, qcv, model)}
         for tin, tout, cp, up in pairs:
@@ -243,6 +260,7 @@ def run(ctx):
     ctx.count('barrier/equity: parity, sign, bound (8 types x configuration)', n_cfg * 8, n_live * 2,
               sample={'configs (barrier vs strike, spot vs barrier)': {f'{a}/{b}': n for (a, b), n in sorted(hist.items())}})
     ctx.count('barrier/equity: value vs quadrature of payoff x killed density', n_exp * 2, n_exp * 2)
+    ctx.count('barrier/equity: spot ladder (ndarray / list) = element-wise scalar valuation', n_ladder, n_ladder)
 
     # ---- continuity at the barrier from the live side (continuous monitoring approximated by 10^12 obs/yr)
     rng = ctx.rng('barrier-cont')
